@@ -1,5 +1,6 @@
 import Skv.Lemmas.Wal
 import Skv.Model.Consts
+import Skv.Lemmas.WalTrunc
 /-!
 # C12 — commit log reads back as an exact prefix; repair keeps all valid records
 
@@ -67,3 +68,19 @@ theorem C12_consts_ok :
     7 < Consts.walBlockSize ∧ Consts.walBlockSize ≤ 65535 + 7 ∧ Consts.walHeaderSize = 7 ∧
     Consts.recFull = 1 ∧ Consts.recFirst = 2 ∧ Consts.recMiddle = 3 ∧ Consts.recLast = 4 ∧
     Consts.recEmpty = 0 ∧ Consts.recSetCompression = 9 := by decide
+
+
+/-- **C12.2 torn tail.** A log cut at ANY byte — a crash in the middle of a write, wherever the cut falls
+with respect to fragment headers, fragment data, block padding and block boundaries — reads as a prefix
+of the records that were written: never a record that was not written, never a later record without the
+earlier ones, never a damaged one (for every block size above the header size, every list of records of
+any sizes, every checksum function). -/
+theorem C12_truncation_prefix (P : Params) (rs : List Bytes) (n : Nat) :
+    (readAll P ((writeAll P 0 rs).1.take n)).1 <+: rs :=
+  wal_truncation_prefix P rs n
+
+/-- and the repaired log (what recovery leaves on disk) holds exactly that prefix and reads back clean -/
+theorem C12_truncation_repair (P : Params) (rs : List Bytes) (n : Nat) :
+    readAll P (repair P ((writeAll P 0 rs).1.take n)) = ((readAll P ((writeAll P 0 rs).1.take n)).1, .eof) ∧
+      (readAll P ((writeAll P 0 rs).1.take n)).1 <+: rs :=
+  ⟨C12_repair_reads_back P _, wal_truncation_prefix P rs n⟩
